@@ -378,6 +378,20 @@ def reparse_jobs(kind, versions=("2", "3", "4")):
 
 
 class C07(VectorProperty):
+    wf = True
+
+    def concretize(self, o):
+        out = VectorProperty.concretize(self, o)
+        model = o.get("model") or {}
+        unit = o.get("unit", "")
+        if "__eq__" in unit and any(k.startswith("p.") for k in model):
+            for ver, f in (("3", v3_vector_from_model), ("2", v2_vector_from_model), ("4", v4_vector_from_model)):
+                if unit.startswith("cvss" + ver):
+                    a, b = f(model, "o"), f(model, "p")
+                    if a and b:
+                        out.insert(0, {"check": "C07", "input": {"version": ver, "vector": a, "other": {"version": ver, "vector": b}}})
+        return out
+
     def jobs(self, tier):
         return VectorProperty.jobs(self, tier) + reparse_jobs("reparse")
 
@@ -389,6 +403,8 @@ class C07(VectorProperty):
 
 
 class C08(VectorProperty):
+    wf = True
+
     def jobs(self, tier):
         return (VectorProperty.jobs(self, tier) + lemma_jobs("lemmas.regex", "emitted_in_official", [{"version": v} for v in ("2", "3.0", "3.1", "4")])
                 + reparse_jobs("reparse"))
@@ -471,6 +487,38 @@ class C18(VectorProperty):
 
 
 class C19(VectorProperty):
+    def seed_job(self, seed):
+        return self.bounded("quick", seed)[0][-1]
+
+    def concretize(self, o):
+        out = VectorProperty.concretize(self, o)
+        if "hash-order" in o.get("name", ""):
+            out.insert(0, self.seed_job(0))
+        return out
+
+    def widen(self, o, tier):
+        out = VectorProperty.widen(self, o, tier)
+        if "hash-order" in o.get("name", ""):
+            out = [self.seed_job(k) for k in (1, 2, 3)] + out
+        return out
+
+    def bounded(self, tier, seed):
+        jobs, desc = VectorProperty.bounded(self, tier, seed)
+        rng = random.Random(seed)
+        strs = []
+        for ver, gen in (("2", v2_random), ("3", v3_random), ("4", v4_random)):
+            for v in gen(rng, 6):
+                fs = v.split("/")
+                body = fs[1:] if ver != "2" else fs
+                head = fs[:1] if ver != "2" else []
+                strs.append((ver, "/".join(head + body)))
+                strs.append((ver, "/".join(head + body[3:])))           # several mandatory metrics missing
+                strs.append((ver, "/".join(head + body[:2] + body[5:])))
+                strs.append((ver, "/".join(head + body + body[:1])))     # duplicate
+        text = " ".join(v for ver, v in strs if ver != "4")
+        jobs.append({"check": "C19seed", "input": {"strings": strs, "text": text}})
+        return jobs, desc + " + hash-seed comparison of %d constructions/rejections and one text extraction under PYTHONHASHSEED 0..3" % len(strs)
+
     id = "C19"
     native = "C19"
     trusted = ("A0", "A2", "FD")
@@ -936,7 +984,13 @@ class C17(Property):
     technique = "contract on cvss_calculator.main with modelled argparse namespace, ghost stdout and the callee contracts of the constructors, accessors and the builder"
 
     def jobs(self, tier):
-        return contract_jobs("contracts.cli", [("cvss_calculator", "main")])
+        # the calculator's own code, the builder it calls and the library functions whose
+        # contracts it relies on (constructors, accessors)
+        jobs = contract_jobs("contracts.cli", [("cvss_calculator", "main")])
+        jobs += contract_jobs("contracts.interactive", [("interactive", "ask_interactively")])
+        for modname, keys in [("contracts.init", INIT_V23)] + split_by_module(acc(["scores", "severities", "clean_vector", "rh_vector"])):
+            jobs += contract_jobs(modname, keys)
+        return jobs
 
     def concretize(self, o):
         return []
